@@ -50,6 +50,10 @@ def obligations():
         Obl("C14.ks.store.empty", "py", K, "store_step", ["geometry.cpp:store_energies (-fno-inline IR)"], "both slots empty, arbitrary new energy", "one inductive step of the best-two bookkeeping", 120, params={"state": "empty"}),
         Obl("C14.ks.store.one", "py", K, "store_step", ["geometry.cpp:store_energies (-fno-inline IR)"], "one slot filled (arbitrary energy), arbitrary new energy", "same", 120, params={"state": "one"}),
         Obl("C14.ks.store.two", "py", K, "store_step", ["geometry.cpp:store_energies (-fno-inline IR)"], "both slots filled (arbitrary sorted energies), arbitrary new energy", "slots hold the two lowest of the three, lowest first, each with its own acceptor; other donors untouched", 120, params={"state": "two"}),
+        Obl("C14.ks.python_matrix", "xh", "harness.c15_py", "kabsch_sander_matrix", ["mdtraj.geometry.hbond.kabsch_sander"], "4 residues, 2 frames; which slots the routine fills (symbolic donors / acceptors, one or two per donor)",
+            "matrix[f][acceptor, donor] = energy exactly for the filled slots, nothing else (documented orientation)", 600),
+        Obl("C14.ks.python_arguments", "xh", "harness.c15_py", "kabsch_sander_arguments", ["mdtraj.geometry.hbond.kabsch_sander", "mdtraj.geometry.hbond._prep_kabsch_sander_arrays"], "which backbone atom residues 1 and 3 lack, proline position",
+            "per-residue atom indices found by name, proline flags", 300),
         Obl("C14.ks.driver3_proline", "py", K, "driver", ["geometry.cpp:kabsch_sander"], "3 residues, residue 1 proline", "proline donors are never recorded", 600, params={"n_res": 3, "proline": 1}),
         Obl("C14.ks.incomplete_residue", "py", K, "hydrogen_after_incomplete_residue", ["geometry.cpp:ks_assign_hydrogens"], "residue 0 without backbone atoms followed by two complete residues",
             "no coordinate is read through index -1", 300),
